@@ -152,3 +152,90 @@ def _structure(s, i):
             raise Reject("call form with parameters")
         return j
     raise Reject(op)
+
+
+# ---------------------------------------------------------------- my own program AST + renderer (never uses vyxal.parse)
+# node := ("num", k) | ("str", s) | ("el", key) | ("get", name) | ("set", name) | ("if", [seq, ...]) | ("for", var|None, seq)
+#       | ("while", cond_seq|None, seq) | ("lam", arity|None, seq) | ("map", seq) | ("filter", seq) | ("sort", seq)
+#       | ("fndef", name, [params], seq) | ("fncall", name) | ("list", [seq, ...]) | ("mod", m, [node, ...]) | ("break",) | ("recurse",)
+# seq := tuple of nodes
+def render(node):
+    t = node[0]
+    if t == "num":
+        return "%d " % node[1] if node[1] >= 0 else "%d N" % -node[1]
+    if t == "str":
+        return "`" + node[1] + "`"
+    if t == "el":
+        return node[1]
+    if t == "get":
+        return "←" + node[1] + " "
+    if t == "set":
+        return "→" + node[1] + " "
+    if t == "if":
+        return "[" + "|".join(render_seq(b) for b in node[1]) + "]"
+    if t == "for":
+        return "(" + ((node[1] + "|") if node[1] else "") + render_seq(node[2]) + ")"
+    if t == "while":
+        return "{" + ((render_seq(node[1]) + "|") if node[1] is not None else "") + render_seq(node[2]) + "}"
+    if t == "lam":
+        return "λ" + (("%d|" % node[1]) if node[1] is not None else "") + render_seq(node[2]) + ";"
+    if t in ("map", "filter", "sort"):
+        return {"map": "ƛ", "filter": "'", "sort": "µ"}[t] + render_seq(node[1]) + ";"
+    if t == "fndef":
+        return "@" + node[1] + "".join(":" + str(p) for p in node[2]) + "|" + render_seq(node[3]) + ";"
+    if t == "fncall":
+        return "@" + node[1] + ";"
+    if t == "list":
+        return "⟨" + "|".join(render_seq(b) for b in node[1]) + "⟩"
+    if t == "mod":
+        return node[1] + "".join(render(o) for o in node[2])
+    if t == "break":
+        return "X"
+    if t == "recurse":
+        return "x"
+    raise ValueError(node)
+
+
+def render_seq(seq):
+    return "".join(render(n) for n in seq)
+
+
+def size(node):
+    t = node[0]
+    if t in ("num", "str", "el", "get", "set", "fncall", "break", "recurse"):
+        return 1
+    if t == "if" or t == "list":
+        return 1 + sum(size_seq(b) for b in node[1])
+    if t == "for":
+        return 1 + size_seq(node[2])
+    if t == "while":
+        return 1 + (size_seq(node[1]) if node[1] is not None else 0) + size_seq(node[2])
+    if t == "lam":
+        return 1 + size_seq(node[2])
+    if t in ("map", "filter", "sort"):
+        return 1 + size_seq(node[1])
+    if t == "fndef":
+        return 1 + size_seq(node[3])
+    if t == "mod":
+        return 1 + sum(size(o) for o in node[2])
+    raise ValueError(node)
+
+
+def size_seq(seq):
+    return sum(size(n) for n in seq)
+
+
+def shape_of_real_parse(text):
+    """Cross-check of the renderer: the real parser's tree as a nested tuple of class names (used as a harness self-check)."""
+    from vyxal.lexer import tokenise
+    from vyxal.parse import parse
+    from vyxal.structure import Structure
+
+    def sh(x):
+        if isinstance(x, Structure):
+            return (type(x).__name__,) + tuple(sh(b) for b in x.branches if isinstance(b, (list, tuple, Structure)))
+        if isinstance(x, (list, tuple)):
+            return tuple(sh(b) for b in x if isinstance(b, (list, tuple, Structure)))
+        return None
+
+    return sh(parse(tokenise(text)))
